@@ -1,6 +1,6 @@
 import Heathcliff.Proofs.C14S
 import Heathcliff.Proofs.C14T
-import Heathcliff.Proofs.GenSerK
+import Heathcliff.Proofs.GenSerS
 /-
   C14  Serialization round-trips every object exactly, sizes exact, across contexts.
 
@@ -347,6 +347,27 @@ theorem gen_ct_shape_fit_of_reduced : type_of% @HC.GS.gd_fit_of_reduced := @HC.G
 /-- its refusals: unknown parms id (panic) and shape mismatch (`InvalidData`) before anything is written; scheme `None` after 41 header bytes -/
 theorem gen_ct_serialize_full_refusals : type_of% @HC.GS.c14g_ct_serialize_full_refusals := @HC.GS.c14g_ct_serialize_full_refusals
 
+/-- SECOND ROUND, READERS.  Generated `Ciphertext::deserialize_full` agrees with the model's `ctFullC.dec` on everything the model accepts
+    (same ciphertext as the flat `from_members` record, same remaining bytes); `hpos`: k·N > 0 at every level -/
+theorem gen_ct_full_reader_agrees : type_of% @HC.GS.gf_full_ok := @HC.GS.gf_full_ok
+
+/-- flat-word format, from source to source: generated reader ∘ generated writer = the round-trip value (seed expanded), with continuation -/
+theorem gen_ct_full_source_round_trip : type_of% @HC.GS.c14g_ct_full_source_round_trip := @HC.GS.c14g_ct_full_source_round_trip
+
+/-- `SecretKey` (writer, reader, size) = its plaintext's, from the source; source round trip -/
+theorem gen_secret_key : type_of% @HC.GS.c14g_secret_key := @HC.GS.c14g_secret_key
+
+/-- KEY SETS, sizes from the source: generated `KSwitchKeys::serialized_size` (through `PublicKey`, the context `Vec<I>`, `Ciphertext`
+    size functions) = `kswitchC.size`; `RelinKeys` / `GaloisKeys` are the same function -/
+theorem gen_kswitch_sizes_are_model : type_of% @HC.GS.gs2_kswitch_size := @HC.GS.gs2_kswitch_size
+
+/-- … hence announced size = count returned by the writer = bytes on the wire, all three from the source -/
+theorem gen_kswitch_announced_eq_written : type_of% @HC.GS.c14g_kswitch_announced_eq_written := @HC.GS.c14g_kswitch_announced_eq_written
+
+/-- STATEMENT ONLY (not proved): the generated COMPACT reader `Ciphertext::deserialize` returns the model's round-trip value on every valid
+    encoding.  Proved about that reader: prefix monotonicity (Props/C15 `gen_ct_reader_truncation_partial`). -/
+def GenCtSourceRoundTripStatement : Prop := HC.GS.GenCtSourceRoundTripStatement
+
 /-! non-vacuity of the phase-4i statements -/
 example : HC.GenS.plain_deserialize ((HC.GenS.plain_serialize HC.GS.idealStream ⟨[1, 2, 3, 4], [7, 8], 4607182418800017408⟩ []).2 ++ [9, 9])
     = .ok (⟨[1, 2, 3, 4], [7, 8], 4607182418800017408⟩, [9, 9]) := by rfl
@@ -400,5 +421,14 @@ example :
     let c : Ct := ⟨[1, 2, 3, 4], 2, true, 4607182418800017408, 1, [[[3, 16]], [[5, 6]]], []⟩
     HC.GenS.kswitch_serialize HC.GS.idealStream ctx ⟨[1, 2, 3, 4], [[HC.GS.ctvOfCt lv c], []]⟩ []
       = (.ok 102, (kswitchC (ctC ctx (fun _ _ => []))).enc ⟨[1, 2, 3, 4], [[c], []]⟩) := by rfl
+set_option maxRecDepth 8000 in
+/-- flat-word format, seeded BGV ciphertext (one modulus, N = 9; a seeded object needs k·N ≥ 9 words for flag + seed): the generated
+    reader applied to the generated writer's 201 bytes gives the seed-expanded ciphertext (`expand seed _ = seed ++ [0]` here), nothing left -/
+example :
+    let lv : Level := ⟨[1, 2, 3, 4], 3, 9, [17]⟩
+    let ctx : Ctx := ⟨[lv], 5, 9⟩
+    let c : CtFull := ⟨[1, 2, 3, 4], 2, false, 4607182418800017408, 1, [3, 4, 5, 6, 7, 8, 9, 10, 11, 18446744073709551615, 1, 2, 3, 4, 5, 6, 7, 8]⟩
+    HC.GenS.ct_deserialize_full (fun s _ => s ++ [0]) ctx (HC.GenS.ct_serialize_full HC.GS.idealStream ctx (HC.GS.ctvOfFull lv c) []).2
+      = .ok (⟨2, 1, 9, [3, 4, 5, 6, 7, 8, 9, 10, 11, 1, 2, 3, 4, 5, 6, 7, 8, 0], [1, 2, 3, 4], 4607182418800017408, 1, false⟩, []) := by rfl
 
 end HC.C14
